@@ -292,6 +292,18 @@ def corr_xml(ctx, tmp):
         ctx.corr_case("xml_pipe", small, im, mo2, changed, f"xml-{kind}" + ("-chg" if changed else "") + ("-results" if results_model is not None else ""))
         # preservation oracle (independent): re-parse the output; non-target content must be preserved
         ctx.search_case("xml", small, changed)
+        # changes == edits (independent count of the targeted, matched events)
+        if kind == "attr":
+            def hit(e):
+                if e["name"] not in amap: return False
+                return results_model is None or any(l[0] == e["line"] and l[1] == e["col"] + 1 for r in results_model for l in r)
+            exp_lines = [e["line"] for e in evs if e["t"] == "start" and hit(e)]
+        else:
+            exp_lines = [e["line"] for e in evs if e["t"] == "end" for x in news if x.parent_name == e["name"]]
+        if im["change_lines"] != exp_lines or (cs is None) != (not exp_lines):
+            ctx.fail({"kind": "xml-changes-ne-edits", "transformer": kind}, f"XML change entries on lines {im['change_lines']} (changeset={cs is not None}) but the targeted elements are on lines {exp_lines}",
+                     {"doc": text, "map": rq["map"], "new": rq["new"], "results": results_model})
+            continue
         if dry and after != text:
             ctx.fail({"kind": "dry-run-writes", "pipeline": "xml"}, "the XML file was modified under dry-run", {"doc": text}); continue
         if cs is None or dry:
